@@ -516,6 +516,48 @@ def rule_r10(ctx):
         raise AnalysisBroken("only %d header moves found" % n)
 
 
+# ---------------------------------------------------------------------------
+# R11: the byte-assembling macros shift in the width of the value they assemble
+
+
+def rule_r11(ctx):
+    r = ctx.rule("C17.R11", "T11", "a value is assembled from bytes in its own width: in every expansion of NNI_GET64 each shift is "
+                 "evaluated in a 64-bit unsigned type, and in every expansion of NNI_GET32 in an unsigned type -- a "
+                 "byte shifted as the int it was promoted to turns negative when its top bit is set (byte << 24) and "
+                 "sign-extends into the upper half of the sum: every 64-bit word with bit 31 set decodes as v - 2^32", floor=12)
+    r.own_opinion = True
+    prog = ctx.prog
+    n = 0
+    for f in prog.functions:
+        if f.cfg_failed or f.file.endswith("_test.c"):
+            continue
+        for t in f.sites():
+            if f.blocks[t.b].elems[t.i] is not t.node:
+                continue
+            macros = set(t.node.get("m") or [])
+            want = None
+            if "NNI_GET64" in macros:
+                want = 64
+            elif "NNI_GET32" in macros:
+                want = 32          # (NNI_GET16 shifts a byte by 8: the int it is promoted to is wide enough)
+            if want is None:
+                continue
+            for m in walk(t.node):
+                if m.get("k") == "bin" and m.get("op") == "<<":
+                    n += 1
+                    ty = m.get("t") or ""
+                    good = ty.startswith("unsigned") and (want == 32 or "long" in ty)
+                    if good:
+                        r.ob(f, "shift in %s evaluated as %s" % (sorted(macros)[0], ty))
+                    else:
+                        ctx.fail(r, f, "shift evaluated as %s inside %s" % (ty or "?", sorted(macros)[0]), t.line,
+                                 "%s (line %s): a byte of the %d-bit value is shifted in the type %s: with its top bit set the "
+                                 "partial result is negative (or too narrow) and corrupts the higher-order bytes of the sum"
+                                 % (f.name, t.line, want, ty or "?"))
+    if n < 12:
+        raise AnalysisBroken("only %d shifts inside NNI_GET* expansions found" % n)
+
+
 def run(ctx):
     ctx.guard(rule_r1)
     ctx.guard(rule_r2)
@@ -527,3 +569,4 @@ def run(ctx):
     ctx.guard(rule_r8)
     ctx.guard(rule_r9)
     ctx.guard(rule_r10)
+    ctx.guard(rule_r11)
